@@ -5,6 +5,7 @@ import (
 	"fmt"
 	"io"
 	"math/rand"
+	"strings"
 	"sync"
 	"time"
 
@@ -66,7 +67,7 @@ func openReader(kind string, src io.Reader) (io.Reader, error) {
 
 // runSchedule reads the stream with the given buffer-size schedule and fragmentation and
 // returns the concatenated data, the per-call log and a verdict.
-func runSchedule(c schedCase, stream []byte) (out []byte, problem string) {
+func runSchedule(c schedCase, stream []byte) (out []byte, problem string, trace []string, used []int) {
 	defer func() {
 		if p := recover(); p != nil {
 			problem = fmt.Sprint("panic: ", p)
@@ -75,7 +76,7 @@ func runSchedule(c schedCase, stream []byte) (out []byte, problem string) {
 	src := &fragReader{data: append([]byte{}, stream...), mode: c.Frag, rng: rand.New(rand.NewSource(c.Seed))}
 	rd, err := openReader(c.Kind, src)
 	if err != nil {
-		return nil, "open: " + err.Error()
+		return nil, "open: " + err.Error(), nil, nil
 	}
 	var buf bytes.Buffer
 	eofSeen := false
@@ -84,11 +85,13 @@ func runSchedule(c schedCase, stream []byte) (out []byte, problem string) {
 		sz := c.Sizes[i%len(c.Sizes)]
 		p := make([]byte, sz)
 		n, err := rd.Read(p)
+		used = append(used, sz)
+		trace = append(trace, fmt.Sprintf("%d:%d", n, b2i(err == io.EOF)))
 		if n > sz || n < 0 {
-			return buf.Bytes(), fmt.Sprintf("Read returned n=%d for a buffer of %d", n, sz)
+			return buf.Bytes(), fmt.Sprintf("Read returned n=%d for a buffer of %d", n, sz), trace, used
 		}
 		if eofSeen && n > 0 {
-			return buf.Bytes(), "data delivered after end of stream had been reported"
+			return buf.Bytes(), "data delivered after end of stream had been reported", trace, used
 		}
 		buf.Write(p[:n])
 		if err == io.EOF {
@@ -96,7 +99,7 @@ func runSchedule(c schedCase, stream []byte) (out []byte, problem string) {
 				// stable: keep probing a few times with non-empty buffers
 				zeroProgress++
 				if zeroProgress >= 3 {
-					return buf.Bytes(), ""
+					return buf.Bytes(), "", trace, used
 				}
 				c.Sizes = []int{1, 7, 4096}
 				continue
@@ -106,25 +109,33 @@ func runSchedule(c schedCase, stream []byte) (out []byte, problem string) {
 			continue
 		}
 		if eofSeen {
-			return buf.Bytes(), fmt.Sprintf("after end of stream a Read(%d) returned (%d, %v) instead of (0, EOF)", sz, n, err)
+			if sz == 0 && n == 0 && err == nil {
+				continue // a zero-length read may return (0, nil) at any time
+			}
+			return buf.Bytes(), fmt.Sprintf("after end of stream a Read(%d) returned (%d, %v) instead of (0, EOF)", sz, n, err), trace, used
 		}
 		if err != nil {
-			return buf.Bytes(), "error: " + err.Error()
+			return buf.Bytes(), "error: " + err.Error(), trace, used
 		}
 		if n == 0 && sz > 0 {
 			zeroProgress++
 			if zeroProgress > 1000 {
-				return buf.Bytes(), "no progress: Read keeps returning (0, nil) for a non-empty buffer"
+				return buf.Bytes(), "no progress: Read keeps returning (0, nil) for a non-empty buffer", trace, used
 			}
 		} else if n > 0 {
 			zeroProgress = 0
 		}
 	}
-	return buf.Bytes(), "did not reach end of stream"
+	return buf.Bytes(), "did not reach end of stream", trace, used
 }
 
 // C13: decoded output independent of read sizes and source fragmentation; EOF is stable.
 func checkC13(a *checkArgs, r *Result) error {
+	dp, err := newDriverPool(a.driver, 8)
+	if err != nil {
+		return err
+	}
+	defer dp.Close()
 	r.Rule = "valid streams of all three formats (library-written multi-block xz, multi-chunk LZMA2, classic LZMA in its three end modes, liblzma corpus, multi-stream chains) x generated Read buffer-length schedules (cyclic lists containing 0 and 1, sizes straddling block/chunk boundaries) x source fragmentations (whole, byte-wise, random short reads, data returned together with EOF); oracle: concatenated data equals the content, status EOF, never data after EOF, (0,EOF) stays. Non-trivial: schedule contains a 0 or 1 and fragmentation is not 'whole', or content >= 64 bytes; distinct by (stream, schedule, fragmentation). The Lean side of this property is the layered reader-loop model of Model/ReadLoop.lean (theorems in Props/C13.lean)."
 	rng := rand.New(rand.NewSource(a.seed))
 	nlib, per := 40, 24
@@ -195,8 +206,10 @@ func checkC13(a *checkArgs, r *Result) error {
 			defer func() { <-sem }()
 			var out []byte
 			var problem string
+			var trace []string
+			var used []int
 			orig := append([]int{}, j.c.Sizes...)
-			done := withTimeout(60*time.Second, func() { out, problem = runSchedule(j.c, j.b.Stream) })
+			done := withTimeout(60*time.Second, func() { out, problem, trace, used = runSchedule(j.c, j.b.Stream) })
 			j.c.Sizes = orig
 			small := false
 			for _, s := range orig {
@@ -214,6 +227,42 @@ func checkC13(a *checkArgs, r *Result) error {
 			if problem != "" {
 				r.Violate("counterexample", fmt.Sprintf("schedule kind=%s frag=%d: %s", j.c.Kind, j.c.Frag, truncate(problem, 60)), j.c, problem)
 				return
+			}
+			// per-call correspondence with the contract model ReadLoop.readSeqLens (Lean driver)
+			if len(used) > 0 && len(used) < 20000 {
+				req := fmt.Sprintf("readseq %d", len(j.b.Content))
+				for _, u := range used {
+					req += fmt.Sprint(" ", u)
+				}
+				rep, err := dp.Ask(req)
+				if err != nil {
+					r.Violate("broken-correspondence", "driver", j.c, err.Error())
+					return
+				}
+				r.mu.Lock()
+				r.TracesVsImpl++
+				r.mu.Unlock()
+				// a zero-length Read may answer (0, nil) or, once everything has been delivered,
+				// (0, EOF): canonicalise those entries to the model's answer
+				mt0 := strings.Fields(rep)
+				cum := 0
+				for k := range trace {
+					var n, e int
+					fmt.Sscanf(trace[k], "%d:%d", &n, &e)
+					if used[k] == 0 && n == 0 && k < len(mt0) && (e == 0 || cum == len(j.b.Content)) {
+						trace[k] = mt0[k]
+					}
+					cum += n
+				}
+				if rep != strings.Join(trace, " ") {
+					mt := strings.Fields(rep)
+					k := 0
+					for k < len(mt) && k < len(trace) && mt[k] == trace[k] {
+						k++
+					}
+					r.Violate("broken-correspondence", fmt.Sprintf("read-contract kind=%s frag=%d", j.c.Kind, j.c.Frag), j.c,
+						fmt.Sprintf("per-call (n:eof) results differ from the model at call %d (buffer %d): go %v, model %v", k, used[minInt(k, len(used)-1)], trace[minInt(k, len(trace)-1):minInt(k+3, len(trace))], mt[minInt(k, len(mt)-1):minInt(k+3, len(mt))]))
+				}
 			}
 			if !bytes.Equal(out, j.b.Content) {
 				r.Violate("counterexample", fmt.Sprintf("schedule-dependent-output kind=%s frag=%d", j.c.Kind, j.c.Frag), j.c,
